@@ -117,7 +117,10 @@ def check_leaf(acc, enf, space, text_ok, leaf, target, creds, nontrivial):
                 ('tand', '@ and ' + leaf, lambda e: e),
                 ('tor', '%s or !' % leaf, lambda e: e),
                 ('alias', 'rule:t', lambda e: e),
-                ('nalias', 'not rule:alias', lambda e: not e)]
+                ('nalias', 'not rule:alias', lambda e: not e),
+                # an unresolved reference (no default rule) next to the leaf
+                ('uor', 'rule:nowhere or %s' % leaf, lambda e: e),
+                ('nuand', 'not rule:nowhere and rule:t', lambda e: e)]
     world.set_rules(enf, {n: r for n, r, _ in ctx})
     acc.case(space, nontrivial)
     for name, _, tr in ctx:
